@@ -470,8 +470,10 @@ class Connector:
             except Empty:
                 logger.debug("[connector][%s] Processed all messages", self.device.interface)
 
-        # Mark connector as unlocked
-        self.__locked = False
+            # Mark connector as unlocked while still holding the lock: once the
+            # holding queue has been drained no PDU can be added to it anymore
+            # (see add_locked_pdu()).
+            self.__locked = False
 
     def is_locked(self) -> bool:
         """Determine if the connector is locked.
@@ -481,17 +483,26 @@ class Connector:
         logger.info("[connector][%s] is_locked() -> %s", self.device.interface, self.__locked)
         return self.__locked
 
-    def add_locked_pdu(self, pdu):
+    def add_locked_pdu(self, pdu) -> bool:
         """Add a pending Protocol Data Unit (PDU) to our locked pdus queue.
 
         :param  Packet pdu:  Packet to add to locked packets queue
         :type   pdu: scapy.packet.Packet
+        :return: `True` if the PDU has been saved, `False` if the connector has
+                 been unlocked in the meantime (the PDU must then be processed
+                 by the caller)
+        :rtype: bool
         """
         # We use the same lock used when unlocking to prevent adding more locked PDUs into
         # our locked PDUs queue, until it becomes full and connector is unlocked.
         with self.__lock:
+            # Lock state is tested again under the lock: unlock() may have drained
+            # the queue since the caller called is_locked().
+            if not self.__locked:
+                return False
             logger.info("[connector][%s] Add locked pdu: %s", self.device.interface, pdu)
             self.__locked_pdus.put(pdu)
+            return True
 
     def has_locked_pdus(self) -> bool:
         """Determine if connector has locked PDUs.
@@ -869,9 +880,8 @@ class Connector:
                 # Check if message is a received packet
                 if issubclass(message, AbstractPacket):
                     # If connector is locked, save message into locked pdus
-                    if self.is_locked():
-                        self.add_locked_pdu(message)
-                    else:
+                    # (unless it has been unlocked in the meantime)
+                    if not (self.is_locked() and self.add_locked_pdu(message)):
                         self.__process_pkt_message(message)
                 # Check if message is a received event
                 elif issubclass(message, AbstractEvent):
